@@ -402,10 +402,12 @@ funcbits(struct func *f, struct type *t, struct value *v, struct bitfield b)
 
 	class = t->size <= 4 ? 'w' : 'l';
 	bits = b.after;
-	if (bits) {
+	if (b.before || b.after) {
+		/* the storage unit occupies the low bits of a 32-bit or 64-bit temporary */
 		bits += (t->size + 3 & ~3) - t->size << 3;
-		v = funcinst(f, ISHL, class, v, mkintconst(bits));
 	}
+	if (bits)
+		v = funcinst(f, ISHL, class, v, mkintconst(bits));
 	bits += b.before;
 	if (bits)
 		v = funcinst(f, t->u.basic.issigned ? ISAR : ISHR, class, v, mkintconst(bits));
